@@ -81,6 +81,8 @@ def signature(c):
 def describe(c):
     fam = {0: "f_i(x)=2x+i", 1: "f_i(x)= x-i (i odd) | 3x (i even)", 2: "f_i(l)=append(l,i)", 3: "f_i(x any)=append(list(x),i); the nil interface counts as the list [-1000], a typed nil slice inside the interface (input written [-7777]) as the empty list; [-999] = panic",
            5: "f_i(x float64)=x/2+i on quarters (exact dyadic arithmetic; result reported times 2^24)",
+           6: "ONE pipeline value called twice on the same argument; f_i(v)=3v+i*setting, setting 1 in the first call and 2 in the second; observed [first result, second result, stage applications in both calls]",
+           7: "one float64 pipeline called on +0 then -0 (input [0]) or -0 then +0 (input [1]); f_1 = -1 or +1 by the sign bit, f_i(v)=v/2+i; results times 2^24 in call order",
            4: "f_i(l)=append(l,i), and stage (N+1)/2 of the outermost call calls the pipeline itself on [100] and appends the length of the result"}[c["fam"]]
     return {"call": "Pipe%s(f_1..f_%d)(%s) with %s" % ("" if c["arity"] == 2 else c["arity"], c["arity"], c["input"], fam),
             "observed": c["observed"], "required": "f_N(...f_2(f_1(a)))"}
